@@ -613,7 +613,7 @@ def rule_impl_accessors(ctx):
                 if bad:
                     r.violate(impl, 'accessor-crossed', ','.join(sorted(bad)), '%s touches %s: the %s time is taken from / stored to the wrong store, so ttl is measured from the last read (or tti from the last write)'
                               % (impl, sorted(bad), 'last-modified' if 'modified' in item else 'last-accessed'), where=ctx.where(impl))
-    r.require_floor(8, 'accessor implementations')
+    r.require_floor(8 if ctx.has_sync else 4, 'accessor implementations')
     return r
 
 
